@@ -82,6 +82,14 @@ def run_route(lg, route, seed=0):
         kw = dict(cg_name=None, cg_kwargs=dict(L.CG_TIGHT))
         key = jax.random.PRNGKey(seed + 11)
         N = jnp.asarray(lg.impl("N"))
+        if route == "re.wf.absdelta":
+            # the accuracy is requested through `absdelta` alone (documented to take precedence over the
+            # default relative-residual tolerance); ill-conditioned models make the difference visible
+            lh = L.jax_likelihood(lg, False)
+            s, _ = jft.wiener_filter_posterior(
+                lh, key=key, n_samples=0, jit=False,
+                draw_linear_kwargs=dict(cg_name=None, cg_kwargs=dict(absdelta=1e-13, maxiter=100)))
+            return np.asarray(s.pos)
         if route.startswith("re.wf.") and route != "re.wf.samples":
             nl = ".lin." in route
             lh = L.jax_likelihood(lg, nl)
@@ -231,7 +239,7 @@ def safe_route(lg, route, seed=0):
 def coq_term(lg, route, out):
     n = C.cnat(lg.n)
     R, Ninv, N, d = qm(lg.R), qm(lg.Ninv), qm(lg.N), qv(lg.d)
-    if route == "re.wf.signal":
+    if route in ("re.wf.signal", "re.wf.absdelta"):
         return "corr_signal %s %s %s %s %s %s" % (TOLQ, n, R, Ninv, d, fv(out))
     if route == "re.wf.data":
         return "corr_data %s %s %s %s %s %s %s" % (TOLQ, n, R, N, Ninv, d, fv(out))
@@ -328,6 +336,8 @@ class C20(C.Check):
             noise = "dense" if i % 4 == 3 else None
             # every third model has a complex-valued response and complex data (real signal)
             cases.append(L.gen_lg_case(rng, i, rkind=rk, noise=noise, cplx=(i % 3 == 1)))
+        for i in range(3 if ctx.quick else 10):      # ill-conditioned models (solver-accuracy options)
+            cases.append(L.gen_illcond_case(rng, 700 + i))
         return cases, nokl
 
     def correspondence(self, ctx, res):
@@ -340,8 +350,10 @@ class C20(C.Check):
         for ci, case in enumerate(cases):
             lg = L.LG(case)
             routes = JAX_CHEAP + CL_ROUTES
+            if case["rkind"] == "illcond":
+                routes = ["re.wf.absdelta", "re.wf.signal", "re.wf.data"]
             # the expensive driver routes on a subset that always contains rank-deficient cases
-            if ci < len(corpus) or (ci - len(corpus)) < nokl:
+            if case["rkind"] != "illcond" and (ci < len(corpus) or (ci - len(corpus)) < nokl):
                 routes = routes + JAX_OKL
             for route in routes:
                 out = safe_route(lg, route, seed=ctx.seed)
